@@ -39,7 +39,10 @@ ASSUME_BLOCK = [
     "state roots of the intermediate slots (sroots) and the sync-committee aggregate pubkeys (aggs) supplied by stepping the real code, as in C02",
     "uint64 overflow inside the specification (pyspec raises => reject) was not reachable by any generated chain or mutant",
     "chains use minimal-derived presets (custom 'fast' and random small parameter sets, published minimal) with 32-64 validators (quick); mainnet-sized "
-    "registries are not run (the theorems have no size bound, the correspondence has)",
+    "registries are not run (the theorems have no size bound, the correspondence has). Every fork also runs under configurations whose per-fork constant "
+    "families (slashing penalty quotients, proportional multipliers, leak quotients) and per-block MAX_* limits are pairwise different ('+apart', the chain "
+    "library's apart:<seed>), with blocks carrying exactly MAX_x operations of each kind, MAX_x + 1 all-valid operations (typed API), attestation backlogs "
+    "(deneb: inclusion later than one epoch) and payload extra_data of 0 / 31 / 32 bytes; the mainnet constants themselves run in the thorough tier only",
 ]
 
 PROPS["C01"] = dict(
